@@ -145,6 +145,39 @@ fn step<E: IGlue>(m: &IterModel, st: &mut St<E::It>, op: &Op) -> Result<(), (Str
 /// after a history: drain every copy from the front (alternating ends for odd copies) and check
 /// fusedness
 fn finish<E: IGlue>(m: &IterModel, st: &mut St<E::It>) -> Result<(), (String, String, String)> {
+    // whole-iterator consumers (provided methods of Iterator / DoubleEndedIterator, or overrides of
+    // them) on copies: a double-ended iterator over the remaining list answers them like the model
+    for (it, md) in st.its.iter() {
+        let want_fwd: Vec<usize> = md.clone().map(|p| m.enabled[p]).collect();
+        let mut want_rev = want_fwd.clone();
+        want_rev.reverse();
+        let obs = catch(|| {
+            let fwd: Vec<usize> = it.clone().take(64).map(|v| v.idx()).collect();
+            let rev: Vec<usize> = it.clone().rev().take(64).map(|v| v.idx()).collect();
+            let cnt = it.clone().count();
+            let last = it.clone().last().map(|v| v.idx());
+            let folded = it.clone().fold(0usize, |a, _| a + 1);
+            (fwd, rev, cnt, last, folded)
+        });
+        match obs {
+            Err(p) => return Err(("panic-in-consumer".into(), format!("{:?}", want_fwd), p)),
+            Ok((fwd, rev, cnt, last, folded)) => {
+                if fwd != want_fwd {
+                    return Err(("remaining-items".into(), format!("{:?}", want_fwd), format!("{:?}", fwd)));
+                }
+                if rev != want_rev {
+                    return Err(("remaining-items-reversed".into(), format!("{:?}", want_rev), format!("{:?}", rev)));
+                }
+                if cnt != want_fwd.len() || folded != want_fwd.len() || last != want_fwd.last().copied() {
+                    return Err((
+                        "count-last-fold".into(),
+                        format!("count {} last {:?} fold {}", want_fwd.len(), want_fwd.last(), want_fwd.len()),
+                        format!("count {} last {:?} fold {}", cnt, last, folded),
+                    ));
+                }
+            }
+        }
+    }
     for (n, (it, md)) in st.its.iter_mut().enumerate() {
         let mut guard = 0;
         loop {
